@@ -183,20 +183,30 @@ Definition nextKA (s : st) (pto : Z) : Z :=
 (** [if t := ...; !t.IsZero() && t.Before(deadline) { deadline = t }] *)
 Definition earlier_nz (t d : Z) : Z := if negb (t =? 0) && (t <? d) then t else d.
 
-Definition maybeResetTimer (s : st) (pto ackAlarm loss : Z) : Z :=
-  let d0 :=
-    if negb (hsComplete s) then
-      let d := creation s + hsTimeout (cf s) in
-      let t := idleStart s + c_hsIdleTimeout (cf s) in
-      if t <? d then t else d
-    else if negb (blocked s =? rl_blockModeNone) then nextIdle s pto
-    else let ka := nextKA s pto in
-         if negb (ka =? 0) then ka else nextIdle s pto in
+(** the base deadline: before the handshake completes the earlier of handshake timeout and handshake idle timeout;
+    after it the idle timeout if sending is blocked, else the keep-alive time if there is one, else the idle timeout *)
+Definition base_deadline (s : st) (pto : Z) : Z :=
+  if negb (hsComplete s) then
+    let d := creation s + hsTimeout (cf s) in
+    let t := idleStart s + c_hsIdleTimeout (cf s) in
+    if t <? d then t else d
+  else if negb (blocked s =? rl_blockModeNone) then nextIdle s pto
+  else let ka := nextKA s pto in
+       if negb (ka =? 0) then ka else nextIdle s pto.
+
+(** the sources that depend on whether (and how) sending is blocked *)
+Definition arm (s : st) (d0 ackAlarm loss : Z) : Z :=
   if blocked s =? rl_blockModeHardBlocked then d0 else
   let d1 := earlier_nz ackAlarm d0 in
   let d2 := earlier_nz loss d1 in
   if blocked s =? rl_blockModeCongestionLimited then d2 else
   earlier_nz (pacing s) d2.
+
+(** [retire] = connIDGenerator.NextRetireTime(): the earliest pending expiry of a retired connection ID's grace
+    period, 0 when nothing waits (oracle input). Removing the ID sends nothing, so this source applies in every block
+    mode, before and after the handshake: it is taken BEFORE the hard-blocked early return. *)
+Definition maybeResetTimer (s : st) (pto retire ackAlarm loss : Z) : Z :=
+  arm s (earlier_nz retire (base_deadline s pto)) ackAlarm loss.
 
 (** the branch taken in run() after a wake-up at [now] (after loss detection) *)
 Inductive decision := DKeepAlive | DHandshakeTimeout | DIdleTimeout | DContinue.
